@@ -148,7 +148,7 @@ def const_truth(t):
 
 
 def summarize(fn, exceptional=False, extra_forward=None, roles=None, inline=None, limit=3000, db=None,
-              inline_pred=None, max_depth=3, no_forward=False):
+              inline_pred=None, max_depth=6, no_forward=False, init_vals=None):
     """path summaries of fn.
     extra_forward(fn, term) may classify additional calls as forwarding.
     With db and inline_pred(fn, callee_fn, term): calls to helper functions are inlined (their paths are
@@ -198,8 +198,11 @@ def summarize(fn, exceptional=False, extra_forward=None, roles=None, inline=None
                 t = top_term(e)
                 if t is not None and t.get('k') == 'call':
                     callee = db.fns.get(t.get('key')) if db is not None else None
-                    do_inline = (callee is not None and depth < max_depth and inline_pred is not None
+                    do_inline = (callee is not None and inline_pred is not None
                                  and inline_pred(f, callee, t) and callee.key != f.key)
+                    if do_inline and depth >= max_depth:
+                        # never drop the effects of a helper silently
+                        raise sym.PathLimit('%s: helper inlining deeper than %d levels at %s' % (fn.display, max_depth, callee.display))
                     c = None if (do_inline or no_forward) else (classify_forward(f, t) or (extra_forward(f, t) if extra_forward else None))
                     if c:
                         kind, target, args, via = c
@@ -309,7 +312,49 @@ def summarize(fn, exceptional=False, extra_forward=None, roles=None, inline=None
     def top_cont(st, rterm):
         finish(st, rterm, 'return', None, st[5].get('throw'))
 
-    run_fn(fn, {}, 0, ([], [], [], {}, {}, {}), top_cont)
+    run_fn(fn, dict(init_vals or {}), 0, ([], [], [], {}, {}, {}), top_cont)
+    return out
+
+
+def trace(fn, roles=None, db=None, exceptional=False, limit=3000, init_vals=None):
+    """plain path traces (no inlining): per path a list of steps
+         {'kind': 'ev', 'e': event, 't': top term with locals replaced by their values, 'vals': values of locals before the event}
+         {'kind': 'br', 'cond': substituted condition, 'c': canonical string, 'taken': bool, 'assume': bool, 'stmt': statement class}
+         {'kind': 'end', 'end': 'return'|..., 'ret': substituted returned term or None}
+    Rules use the values, never the names, of locals."""
+    roles = fn_roles(fn) if roles is None else roles
+    out = []
+    for p in sym.enum_paths(fn, limit=limit, exceptional=exceptional):
+        env = sym.Env(fn, roles, None, fields={})
+        env.db = db
+        env.vals.update(init_vals or {})
+        steps = []
+        ret = None
+        dead = False
+        for it in p:
+            if it[0] == 'ev':
+                e = it[1]
+                t = top_term(e)
+                steps.append({'kind': 'ev', 'e': e, 't': env.subst(t) if t is not None else None, 'vals': dict(env.vals)})
+                if e['ev'] == 'return' and e.get('e') is not None:
+                    ret = env.subst(e['e'])
+                env.step(it)
+            elif it[0] == 'br':
+                cond = env.subst(it[1])
+                ct = const_truth(cond)
+                if ct is not None:
+                    if ct != it[2]:
+                        dead = True
+                        break
+                    continue
+                steps.append({'kind': 'br', 'cond': cond, 'c': sym.canon(cond, roles), 'taken': it[2], 'assume': it[3],
+                              'stmt': it[4] if len(it) > 4 else None})
+            elif it[0] == 'end':
+                steps.append({'kind': 'end', 'end': it[1], 'ret': ret})
+            elif it[0] == 'throw':
+                steps.append({'kind': 'throw', 'it': it})
+        if not dead:
+            out.append(steps)
     return out
 
 
